@@ -181,6 +181,8 @@ class Slicer:
             start, stop, step = item.start, item.stop, item.step
             if not (step is None or isinstance(step, int)):
                 raise TypeError("Step must be None or an integer")
+            if step == 0:
+                raise ValueError("Step must not be zero")
             if start is not None:
                 if isinstance(start, str):
                     start = Slicer.resolve_labels(start, labels)
@@ -201,6 +203,9 @@ class Slicer:
                     # stop is not decremented because slice() is exclusive
                 else:
                     raise TypeError("Invalid type for stop.")
+                if step is not None and step < 0:
+                    # going backwards slice() stops one *before* stop: the end point is included, as always
+                    stop = stop - 2 if stop >= 2 else None
             return slice(start, stop, step)
         raise TypeError("Invalid slice.")
 
@@ -297,33 +302,18 @@ class Slicer:
 
     @staticmethod
     def _process_sub_slice(curr_slice: slice, sub_slice: slice, labels):
-        start, stop, step = curr_slice.start, curr_slice.stop, curr_slice.step
-        if start is None:
-            start = 0
-        if stop is None:
-            stop = len(labels)
-        if step is None:
-            step = 1
-        if sub_slice.start is None:
-            sub_slice = slice(0, sub_slice.stop, sub_slice.step)
-
-        if sub_slice.start is not None and sub_slice.start < 0:
-            sub_slice = slice(stop + sub_slice.start, sub_slice.stop, sub_slice.step)
-        if sub_slice.stop is not None and sub_slice.stop < 0:
-            sub_slice = slice(sub_slice.start, stop + sub_slice.stop, sub_slice.step)
-        if sub_slice.stop is None:
-            length = float('inf')
-        else:
-            length = sub_slice.stop - sub_slice.start
-
-        start = start + sub_slice.start * step
-        stop = min(start + length * step, stop)
-        if sub_slice.step is not None:
-            step *= sub_slice.step
-
-        if start == 0:
-            start = None
-        if stop >= len(labels):
+        # The parent selects range(start, stop, step) of the axis. A slice of that range (0-based, end-exclusive, negative
+        # indices counted from the end of the selection) is the range the sub-slice selects.
+        selected = range(*curr_slice.indices(len(labels)))[sub_slice]
+        if len(selected) == 0:
+            return slice(0, 0, None)
+        start, stop, step = selected.start, selected.stop, selected.step
+        if step > 0:
+            if start == 0:
+                start = None
+            if stop >= len(labels):
+                stop = None
+        elif stop < 0:
             stop = None
         if step == 1:
             step = None
